@@ -51,13 +51,20 @@ func (c Cfg) State() ws.State {
 	return st
 }
 
-// Rsv1First is the test extension: RSV1 on the first frame of every data message.
+// Rsv1First is the test extension: RSV1 on the first frame of every data message. Like the
+// permessage-deflate message state it refuses a header whose bit is already taken (it owns the bit).
 var Rsv1First = wsutil.SendExtensionFunc(func(h ws.Header) (ws.Header, error) {
+	if h.Rsv&4 != 0 {
+		return h, ErrBitTaken
+	}
 	if h.OpCode != ws.OpContinuation && !h.OpCode.IsControl() {
 		h.Rsv |= 4
 	}
 	return h, nil
 })
+
+// ErrBitTaken is Rsv1First's refusal.
+var ErrBitTaken = fmt.Errorf("wops: RSV1 is already set in the header given to the extension")
 
 var buildMu sync.RWMutex
 
@@ -158,6 +165,8 @@ func (o Op) String() string {
 		return fmt.Sprintf("ReadFrom(%s,chunk=%d)", o.Rel, o.Chunk)
 	case "Reset":
 		return "Reset(new destination, other side)"
+	case "SetExtensions-again":
+		return "SetExtensions(the same extension again)"
 	case "ResetOp-if-failed":
 		return "ResetOp (if the destination has failed)"
 	case "ReadFromErr":
@@ -295,6 +304,14 @@ func (s *Session) Apply(o Op) *explore.Fail {
 		// next message on a connection whose last write failed: the failure has to stay visible
 		if s.Dst.Failed {
 			w.ResetOp(s.Cfg.OpCode)
+		}
+		s.Obs = append(s.Obs, CallObs{Op: o.String(), Err: "n/a", Size: w.Size()})
+		return nil
+	case "SetExtensions-again":
+		// an application that attaches its extension set per message (after the quick ResetOp, or
+		// simply at the top of its loop): the set is the one just given, not a longer one
+		if s.Cfg.Ext {
+			w.SetExtensions(Rsv1First)
 		}
 		s.Obs = append(s.Obs, CallObs{Op: o.String(), Err: "n/a", Size: w.Size()})
 		return nil
